@@ -86,6 +86,11 @@ def monitor_trace(tr):
             viol.append(dict(prop='*', i=rec['i'], sig=dict(kind='state-unreadable', op=kind),
                              msg='after %r the cache/archive cannot be read back: %s' % (op, a['error'])))
             break
+        if isinstance(out, dict) and out.get('blocked'):
+            for pr in ('C16', 'C01'):
+                viol.append(dict(prop=pr, i=rec['i'], sig=dict(kind='call-blocks-after-a-raising-call', algo=algo, safe=cfg['safe']),
+                                 msg='%r made from a second thread after an earlier call had raised never returned (3 s): the raising call left something held' % (op,)))
+            break
         if isinstance(out, dict) and 'independence' in out:
             viol.append(dict(prop='C20', i=rec['i'], sig=dict(kind='not-independent', what=out['independence']['what']),
                              msg='using the restored copy changed the original (%s)' % out['independence']['what']))
